@@ -48,6 +48,7 @@ MODELLED_NOT_VERIFIED = ['numpy (astype, fancy indexing, eye, maximum, isin)', '
 DTYPES = [None, None, None, None, 'uint8', 'uint16', 'uint32', 'uint64', 'int8', 'int16', 'int32', 'int64', 'float32',
           'float64', 'bool']
 # the documented defaults of the read options (identical in the docstrings of all five entry points)
+EXTRA_UID = '1.2.826.0.1.3680043.8.498.777'     # an instance some objects LIST as referenced although no frame derives from it
 DEFAULTS = {'combine': False, 'relabel': False, 'skip': False, 'rescale': True, 'assert_missing': False}
 KWNAME = {'combine': 'combine_segments', 'relabel': 'relabel', 'skip': 'skip_overlap_checks', 'rescale': 'rescale_fractional',
           'assert_missing': 'assert_missing_frames_are_empty'}
@@ -167,6 +168,7 @@ def _draw_object(ctx, idx):
          'via': r.choice(['memory', 'memory', 'memory', 'file', 'lazy']),
          'density': r.choice([0.15, 0.3, 0.5]), 'overlap': segtype != 'LABELMAP' and r.random() < 0.5,
          'frac_binary': r.random() < 0.4, 'empty_planes': r.random() < 0.5, 'order': None}
+    d['extra_ref'] = r.random() < 0.3
     if segtype == 'FRACTIONAL' and d['mfv'] >= 100 and r.random() < 0.35:
         # a malformed object (not constructible): MaximumFractionalValue lowered after construction, so stored values exceed
         # it; the oracle is silent on it, model and implementation must still agree (refusals of the frame transform's
@@ -262,14 +264,20 @@ def _build(ctx, d):
         return {'d': d, 'error': seg, 'store': store}
     if d.get('patch_mfv'):
         seg.MaximumFractionalValue = d['patch_mfv']
+    if d.get('extra_ref') and 'ReferencedSeriesSequence' in seg and len(seg.ReferencedSeriesSequence[0].ReferencedInstanceSequence):
+        # the object lists one more referenced instance, from which no frame derives (legal: e.g. an image that was looked at)
+        import copy as _copy
+        extra = _copy.deepcopy(seg.ReferencedSeriesSequence[0].ReferencedInstanceSequence[0])
+        extra.ReferencedSOPInstanceUID = EXTRA_UID
+        seg.ReferencedSeriesSequence[0].ReferencedInstanceSequence.append(extra)
     buf = io.BytesIO()
     seg.save_as(buf)
     blob = buf.getvalue()
     px = pydicom.dcmread(io.BytesIO(blob)).pixel_array       # pydicom's own decoding of the stored frames
     if px.ndim == 2:
         px = px[None]
-    if d['via'] != 'memory':
-        if d['via'] == 'file':
+    if d['via'] != 'memory' or d.get('extra_ref'):
+        if d['via'] in ('file', 'memory'):      # (an object with the extra reference is re-parsed so that its tables see it)
             st, seg2 = _fetch(lambda: hd.seg.Segmentation.from_dataset(pydicom.dcmread(io.BytesIO(blob)), copy=False))
         else:
             st, seg2 = _fetch(hd.seg.segread, io.BytesIO(blob), lazy_frame_retrieval=True)
@@ -375,6 +383,10 @@ def _requests(ctx, obj):
                     planes.insert(r.randint(0, len(planes)), 'beyond')
                 if entry == 'frame' and r.random() < 0.15:
                     rq['wrong_uid'] = True
+                if entry == 'frame' and d.get('extra_ref') and r.random() < 0.25:
+                    rq['listed_uid'] = True
+                if entry == 'instance' and d.get('extra_ref') and d['kind'] != 'multiframe' and r.random() < 0.3:
+                    planes.insert(r.randint(0, len(planes)), 'listed')
                 rq['planes'] = planes
             if entry == 'volume' and d['kind'] != 'tiled' and r.random() < 0.3:
                 R, C = d['rows'], d['cols']
@@ -562,6 +574,10 @@ def _run_read(ctx, obj, rq, frames, info):
                 uids.append('1.2.3.4.5.6.7.8.9')
                 plane_masks.append(None)
                 must_refuse_missing = must_refuse_missing or not rq['assert_missing']
+            elif p == 'listed':
+                # listed among the referenced instances, no frame: known to the object, reads empty without assertion
+                uids.append(EXTRA_UID)
+                plane_masks.append(None)
             else:
                 uids.append(info['uid_of_plane'][p])
                 plane_masks.append(store[p])
@@ -583,7 +599,12 @@ def _run_read(ctx, obj, rq, frames, info):
                     # not referenced and above every referenced frame: existence cannot be known to the object
                     must_refuse_missing = must_refuse_missing or not rq['assert_missing']
         use_uid = info['uid']
-        if rq.get('wrong_uid'):
+        if rq.get('listed_uid'):
+            # listed among the referenced instances but not the source of any frame: by source frame that is not enough
+            use_uid = EXTRA_UID
+            plane_masks = [None] * len(plane_masks)
+            must_refuse_missing = must_refuse_missing or not rq['assert_missing']
+        elif rq.get('wrong_uid'):
             # an instance the object does not reference: refused unless asserted, and then every frame reads empty
             use_uid = '1.2.3.4.5.6.7'
             plane_masks = [None] * len(plane_masks)
@@ -922,13 +943,15 @@ def _model_request(obj, rq, frames, info, model_keys):
         refs = [kid(u) for u in ref_uids]
         uid = 0
     elif entry == 'frame':
-        refs = [1] if info.get('uid') in ref_uids else []
-        uid = 0 if rq.get('wrong_uid') else 1
+        refs = ([1] if info.get('uid') in ref_uids else []) + ([2] if EXTRA_UID in ref_uids else [])
+        uid = 2 if rq.get('listed_uid') else (0 if rq.get('wrong_uid') else 1)
     else:
         refs, uid = [], 0
+    # the instances frames derive from (pydicom view of DerivationImageSequence / SourceImageSequence)
+    frame_srcs = ([1] if any(f['uid'] == info.get('uid') for f in frames) else []) if entry == 'frame' else []
     seg = obj['seg']
     args = {'type': d['type'], 'stored': [int(x) for x in d['nums']], 'bits': int(seg.BitsStored), 'mfv': int(seg.get('MaximumFractionalValue', 1)),
-            'npix': R * C, 'frames': mframes, 'keys': keys, 'refs': refs, 'uid': uid, 'mode': mode,
+            'npix': R * C, 'frames': mframes, 'keys': keys, 'refs': refs, 'frame_srcs': frame_srcs, 'uid': uid, 'mode': mode,
             'bg': int(seg.get('PixelPaddingValue', 0)),
             'assert_missing': bool(rq['assert_missing']) if mode != 'all' else True,
             'segs': [int(x) for x in rq['segs']], 'combine': rq['combine'], 'relabel': rq['relabel'],
